@@ -1,6 +1,7 @@
 /- Dispatch of the line protocol operations onto the executable models. -/
 import OlVerif.Json
 import OlVerif.Unparse.StrLit
+import OlVerif.Lower.Stmt
 
 namespace OlVerif
 open Lean
@@ -53,11 +54,50 @@ def opDecode (j : Json) : Json :=
     | .error e => errJ e
   | _, _ => errJ "decode: bad arguments"
 
+def symInfoOfJson (j : Json) : R SymInfo := do
+  let a ← jArr j
+  let bits ← jNat a[1]!
+  let b (i : Nat) : Bool := (bits >>> i) % 2 == 1
+  pure { name := (← jStr a[0]!), isAssigned := b 0, isParameter := b 1, isGlobal := b 2,
+         isDeclaredGlobal := b 3, isNonlocal := b 4, isFree := b 5 }
+
+partial def symScopeOfJson (j : Json) : R SymScope := do
+  let a ← jArr j
+  let kind ← match (← jStr a[1]!) with
+    | "module" => pure ScopeKind.module
+    | "function" => pure ScopeKind.function
+    | "class" => pure ScopeKind.class_
+    | k => throw s!"scope kind {k}"
+  pure (.mk (← jStr a[0]!) kind (← jNat a[2]!) (← (← jArr a[3]!).toList.mapM symInfoOfJson)
+    (← jStrList a[4]!) (← jStrList a[5]!) (← jStrList a[6]!) (← jStrList a[7]!)
+    (← (← jArr a[8]!).toList.mapM symScopeOfJson))
+
+def cfgOfJson (j : Json) : R Cfg := do
+  let a ← jArr j
+  let w ← match (← jStr a[0]!) with
+    | "list" => pure Wrapper.list | "chain_call" => pure Wrapper.chainCall | x => throw s!"wrapper {x}"
+  let i ← match (← jStr a[1]!) with
+    | "if_expr" => pure IfStyle.ifExpr | "short_circuit" => pure IfStyle.shortCircuit | x => throw s!"if_style {x}"
+  pure { wrapper := w, ifStyle := i }
+
+def opLower (j : Json) : Json :=
+  let r : R Json := do
+    let cfg ← cfgOfJson (← j.getObjVal? "cfg")
+    let sym ← symScopeOfJson (← j.getObjVal? "sym")
+    let body ← (← jArr (← j.getObjVal? "body")).toList.mapM stmtOfJson
+    match lowerFull cfg sym body with
+    | .ok e => pure (Json.mkObj [("ok", exprToJson e)])
+    | .error err => pure (Json.mkObj [("err", .str err.cls)])
+  match r with
+  | .ok j => j
+  | .error e => errJ e
+
 def handle (j : Json) : Json :=
   match j.getObjVal? "op" with
   | .ok (.str "unparse") => opUnparse j
   | .ok (.str "escape") => opEscape j
   | .ok (.str "decode") => opDecode j
+  | .ok (.str "lower") => opLower j
   | .ok (.str "ping") => Json.mkObj [("pong", .bool true)]
   | _ => errJ "unknown op"
 
